@@ -10,12 +10,13 @@ import Hub.Drv.C14
 import Hub.Drv.C05
 import Hub.Drv.C15
 import Hub.Drv.C08
+import Hub.Drv.C02
 /-! Line-protocol driver: one JSON case per input line `{"id":n,"k":kind,"in":…}`, one JSON
 result per output line `{"id":n,"m":model,"s":spec?,"nt":bool,"kf":class?}` or `{"id":n,"err":…}`. -/
 open Lean Hub.Drv
 
 def handlers : List (String → Json → Option (R Res)) :=
-  [Hub.Drv.C10.handle, Hub.Drv.C17.handle, Hub.Drv.C11.handle, Hub.Drv.C16.handle, Hub.Drv.C13.handle, Hub.Drv.C09.handle, Hub.Drv.Store.handle, Hub.Drv.C14.handle, Hub.Drv.C05.handle, Hub.Drv.C15.handle, Hub.Drv.C08.handle]
+  [Hub.Drv.C10.handle, Hub.Drv.C17.handle, Hub.Drv.C11.handle, Hub.Drv.C16.handle, Hub.Drv.C13.handle, Hub.Drv.C09.handle, Hub.Drv.Store.handle, Hub.Drv.C14.handle, Hub.Drv.C05.handle, Hub.Drv.C15.handle, Hub.Drv.C08.handle, Hub.Drv.C02.handle]
 
 def dispatch (k : String) (inp : Json) : R Res :=
   match handlers.findSome? (fun h => h k inp) with
